@@ -97,6 +97,15 @@ func c20List(tier string) []c20Combo {
 			out = append(out, c20Combo{n: n, pat: -1, mode: "jitter", variant: s})
 		}
 	}
+	// nested use, as in the gateway (per operation -> per service -> per response -> per chunk): many outer items whose
+	// map function runs the helper again
+	nestedNs := []int{40, 300}
+	if tier == "thorough" {
+		nestedNs = []int{40, 130, 300, 700, 2000}
+	}
+	for _, n := range nestedNs {
+		out = append(out, c20Combo{n: n, pat: -1, mode: "nested"})
+	}
 	// directed pairs
 	pairs := [][2]string{}
 	for _, w := range amrWorker {
@@ -173,12 +182,30 @@ type c20Item struct {
 }
 type c20Res struct{ idx int }
 
+// c20Hangs counts calls of this process that did not return; the bound then shrinks and, after 8, the remaining
+// cases of the child are not run (the process is littered with stuck goroutines; the hangs are already reported).
+var c20Hangs int32
+
+func c20ReturnBound() time.Duration {
+	if atomic.LoadInt32(&c20Hangs) >= 3 {
+		return 3 * time.Second
+	}
+	return 20 * time.Second
+}
+
 func (p c20) Exec(c *run.Ctx, idx int, raw json.RawMessage) []run.Result {
 	var sp c20Case
 	if err := json.Unmarshal(raw, &sp); err != nil {
 		return []run.Result{{Verdict: "broken", Message: err.Error()}}
 	}
 	res := run.Result{Verdict: run.Held, Counters: map[string]int{}}
+	if sp.Mode == "nested" {
+		return p.execNested(&sp, res)
+	}
+	if atomic.LoadInt32(&c20Hangs) >= 8 {
+		res.Verdict, res.Symptom, res.Message = run.Inconclusive, "not-run-after-repeated-hangs", "8 calls of this child process already ended with call-did-not-return"
+		return []run.Result{res}
+	}
 	res.NonTrivial = sp.N >= 2
 	pat := ""
 	for _, e := range sp.Errs {
@@ -273,9 +300,10 @@ func (p c20) Exec(c *run.Ctx, idx int, raw json.RawMessage) []run.Result {
 		var out ret
 		select {
 		case out = <-done:
-		case <-time.After(30 * time.Second):
+		case <-time.After(c20ReturnBound()):
+			atomic.AddInt32(&c20Hangs, 1)
 			sched.Uninstall()
-			return fail("call-did-not-return", fmt.Sprintf("rep %d: AsyncMapReduce still running after 30s", rep))
+			return fail("call-did-not-return", fmt.Sprintf("rep %d: AsyncMapReduce still running %v after every map function was released", rep, c20ReturnBound()))
 		}
 		// snapshot right after return
 		snapReduce := atomic.LoadInt32(&reduceCalls)
@@ -339,6 +367,77 @@ func (p c20) Exec(c *run.Ctx, idx int, raw json.RawMessage) []run.Result {
 	_ = unsat
 	if res.NonTrivial && idx%23 == 0 {
 		res.Sample = map[string]any{"n": sp.N, "pattern": pat, "mode": sp.Mode, "order": sp.Order, "constraint": sp.Wait + " until " + sp.Until, "repetitions": sp.Reps, "distinct_traces": len(traces)}
+	}
+	return []run.Result{res}
+}
+
+// execNested: N outer items; each outer map function calls the helper again over 3 inner items (2 levels deep for
+// every 4th item), outer items held together by a barrier so that they are all in flight at once.
+func (p c20) execNested(sp *c20Case, res run.Result) []run.Result {
+	res.NonTrivial = true
+	res.Key = hashStr("nested", fmt.Sprint(sp.N))
+	res.Tags = []string{"mode:nested"}
+	inner := func(depth int) (int, error) {
+		var rec func(d int) (int, error)
+		rec = func(d int) (int, error) {
+			v, errs := common.AsyncMapReduce([]int{1, 2, 3}, 0, func(i int) (int, error) {
+				if d > 0 && i == 1 {
+					return rec(d - 1)
+				}
+				return i, nil
+			}, func(acc int, v int) int { return acc + v })
+			if len(errs) > 0 {
+				return 0, errors.New(errs[0].Message)
+			}
+			return v, nil
+		}
+		return rec(depth)
+	}
+	items := make([]int, sp.N)
+	for i := range items {
+		items[i] = i
+	}
+	var arrived int32
+	all := make(chan struct{})
+	type ret struct {
+		acc  int
+		errs int
+	}
+	done := make(chan ret, 1)
+	go func() {
+		acc, errs := common.AsyncMapReduce(items, 0, func(i int) (int, error) {
+			if int(atomic.AddInt32(&arrived, 1)) == sp.N {
+				close(all)
+			}
+			select {
+			case <-all: // every outer map function is running now
+			case <-time.After(2 * time.Second):
+			}
+			d := 0
+			if i%4 == 0 {
+				d = 1
+			}
+			return inner(d)
+		}, func(acc int, v int) int { return acc + v })
+		done <- ret{acc, len(errs)}
+	}()
+	want := 0
+	for i := 0; i < sp.N; i++ {
+		if i%4 == 0 {
+			want += 6 + 5 // inner item 1 replaced by a nested sum of 6: 6+2+3
+		} else {
+			want += 6
+		}
+	}
+	select {
+	case o := <-done:
+		res.Counters["nested_calls"] = 1
+		if o.errs != 0 || o.acc != want {
+			res.Verdict, res.Symptom, res.Message = run.Violated, "nested-result-wrong", fmt.Sprintf("N=%d: accumulator %d (want %d), %d errors", sp.N, o.acc, want, o.errs)
+		}
+	case <-time.After(c20ReturnBound()):
+		atomic.AddInt32(&c20Hangs, 1)
+		res.Verdict, res.Symptom, res.Message = run.Violated, "call-did-not-return", fmt.Sprintf("nested use: %d outer items in flight, each running the helper again: not returned after %v", sp.N, c20ReturnBound())
 	}
 	return []run.Result{res}
 }
